@@ -20,6 +20,14 @@ E :: enum
     B (int, int),
     C,
 end
+Pb :: blob {
+    done: bool,
+    n: int,
+}
+Eb :: enum
+    F bool,
+    G (bool, int),
+end
 '''
 # name, type annotation, value with holes (H1..H3 -> hole names per side), orderable?, arithmetic kind
 SHAPES = [
@@ -37,6 +45,13 @@ SHAPES = [
     ("blob_nested", "Q", "Q { p: (H1, H2), l: [H3] }", False, None),
     ("enum_int", "E", "E.A H1", False, None),
     ("enum_tuple", "E", "E.B (H1, H2)", False, None),
+    # falsy leaves: a component that is `false` is a value like any other
+    ("blob_bool", "Pb", "Pb { done: H1 == 1, n: H2 }", False, None),
+    ("tuple_bool", "(bool, int)", "(H1 == 1, H2)", False, None),
+    ("list_bool", "[bool]", "[H1 == 1, H2 == 1]", False, None),
+    ("enum_bool", "Eb", "Eb.F (H1 == 1)", False, None),
+    ("enum_tuple_bool", "Eb", "Eb.G (H1 == 1, H2)", False, None),
+    ("nested_blob_bool", "[(Pb, bool)]", "[(Pb { done: H1 == 1, n: 0 }, H2 == 1)]", False, None),
     ("str", "str", "S1", True, "str"),
     ("int", "int", "H1", True, "int"),
 ]
